@@ -110,9 +110,10 @@ impl IoCtl {
         s.read_buf.extend(HANDSHAKE.iter());
         s.hs_pushed = true;
     }
-    fn push_notification(&self) {
+    /// the remote sends a notification; the payload names the stream (ordinal of the Connection task)
+    fn push_notification(&self, gid: usize) {
         let mut s = self.0.lock().unwrap();
-        s.read_buf.extend([3u8, 7, 7, 7]);
+        s.read_buf.extend([3u8, 7, (gid >> 8) as u8, (gid & 255) as u8]);
     }
     fn fail(&self) {
         let mut s = self.0.lock().unwrap();
@@ -137,8 +138,8 @@ struct Run {
     pending_sids: [VecDeque<usize>; NP],
     inbound: [Vec<IoCtl>; NP],
     outbound: [Vec<IoCtl>; NP],
-    /// carriers handed to `Connection` tasks (pair per opened stream)
-    task_ios: [Vec<(IoCtl, IoCtl)>; NP],
+    /// carriers handed to `Connection` tasks (pair per opened stream) and the ordinal of the task
+    task_ios: [Vec<(IoCtl, IoCtl, usize)>; NP],
     /// outbound carriers of all stream periods in the order of the Opened events: (peer, carrier, bytes read so far)
     periods: Vec<(usize, IoCtl, usize)>,
     usink: [Option<NotificationSink>; NP],
@@ -203,9 +204,14 @@ impl Run {
                     let i = self.pidx(&peer);
                     self.events.push([3, i as u64, err_code(&error)]);
                 }
-                NotificationEvent::NotificationReceived { peer, .. } => {
+                NotificationEvent::NotificationReceived { peer, notification } => {
                     let i = self.pidx(&peer);
-                    self.events.push([4, i as u64, 0]);
+                    // the stream the notification was sent on, as written into the payload
+                    let tag = match notification.as_ref() {
+                        [7, hi, lo] => ((*hi as u64) << 8 | *lo as u64) + 1,
+                        _ => 0,
+                    };
+                    self.events.push([4, i as u64, tag]);
                 }
             }
         }
@@ -236,8 +242,9 @@ impl Run {
             let a = newest_live(&self.inbound[i]).unwrap_or_default();
             let b = newest_live(&self.outbound[i]).unwrap_or_default();
             let off = b.0.lock().unwrap().written.len();
+            let gid = self.periods.len();
             self.periods.push((i, b.clone(), off));
-            self.task_ios[i].push((a, b));
+            self.task_ios[i].push((a, b, gid));
         }
     }
 
@@ -424,11 +431,11 @@ impl Run {
             }
             12 => self.handle.verif_force_close(peer),
             13 | 16 | 17 | 18 => {
-                if let Some((a, b)) = self.task_ios[p].last().cloned() {
+                if let Some((a, b, gid)) = self.task_ios[p].last().cloned() {
                     if a.live() || b.live() {
                         if kind == 17 || kind == 18 {
                             // the remote sends a notification on the open stream
-                            a.push_notification();
+                            a.push_notification(gid);
                         }
                         if (arg != 0 && kind != 17) || kind == 16 {
                             a.0.lock().unwrap().shutdown_gated = true;
@@ -441,7 +448,7 @@ impl Run {
                 }
             }
             14 => {
-                for (a, b) in self.task_ios[p].iter() {
+                for (a, b, _) in self.task_ios[p].iter() {
                     a.0.lock().unwrap().shutdown_gated = false;
                     b.0.lock().unwrap().shutdown_gated = false;
                 }
@@ -719,6 +726,71 @@ fn gen_case(rng: &mut Rng, thorough: bool) -> Vec<u64> {
     c
 }
 
+/// lazy-user case built around leftovers: a stream is opened and seen by the user, the remote sends
+/// notifications that the user does not collect, the stream ends and a new one is set up before the user
+/// polls again: the leftovers must not be handed out in the new stream period.
+fn gen_lstale(rng: &mut Rng) -> Vec<u64> {
+    let auto_accept = rng.chance(50);
+    let cap = rng.pick(&[3u64, 5, 5, 7]);
+    let p = rng.below(NP as u64);
+    let mut ops: Vec<[u64; 3]> = vec![[0, p, 0]];
+    let open_seq = |rng: &mut Rng, ops: &mut Vec<[u64; 3]>| {
+        let seq: Vec<(u64, u64)> = match rng.below(3) {
+            0 => {
+                let mut v = vec![(10, 0), (3, 0), (7, 1), (2, 0), (6, 1)];
+                if !auto_accept {
+                    v.extend([(25, 0), (8, 1)]);
+                }
+                v.push((6, 1));
+                v
+            }
+            1 => vec![(2, 0), (6, 1), (25, 0), (8, 1), (6, 1), (3, 0), (7, 1)],
+            _ => {
+                let mut v = vec![(10, 0), (2, 0), (6, 1), (3, 0)];
+                if !auto_accept {
+                    v.extend([(25, 0), (8, 1)]);
+                }
+                v.extend([(6, 1), (7, 1)]);
+                v
+            }
+        };
+        for (k, a) in seq {
+            ops.push([k, if k == 25 { 0 } else { p }, a]);
+        }
+    };
+    let rounds = rng.range(2, 3);
+    for r in 0..rounds {
+        open_seq(rng, &mut ops);
+        // the user collects everything queued so far: Closed of the previous round, Validate, Opened
+        for _ in 0..rng.range(0, 4) {
+            ops.push([25, 0, 0]);
+        }
+        for _ in 0..rng.range(1, 3) {
+            ops.push([17, p, 0]);
+            if rng.chance(15) {
+                ops.push([25, 0, 0]);
+            }
+        }
+        if r + 1 == rounds {
+            break;
+        }
+        match rng.below(4) {
+            0 => ops.push([11, p, 0]),
+            1 => ops.push([13, p, 0]),
+            2 => ops.push([18, p, 0]),
+            _ => ops.extend([[1, p, 0], [0, p, 0]]),
+        }
+    }
+    for _ in 0..rng.range(4, 10) {
+        ops.push([25, 0, 0]);
+    }
+    let mut c = vec![auto_accept as u64, 1, cap << 3, ops.len() as u64];
+    for o in ops {
+        c.extend(o);
+    }
+    c
+}
+
 /// lazy-user case: a small user event channel, the user polls the handle only now and then
 fn gen_lcase(rng: &mut Rng, thorough: bool) -> Vec<u64> {
     let base = gen_case(rng, thorough);
@@ -784,7 +856,15 @@ pub fn main(args: &Args) {
     }
     for _ in 0..ncases {
         let mut r = rng.fork();
-        let c = if r.chance(25) { gen_lcase(&mut r, thorough) } else { gen_case(&mut r, thorough) };
+        let c = if r.chance(25) {
+            if r.chance(12) {
+                gen_lstale(&mut r)
+            } else {
+                gen_lcase(&mut r, thorough)
+            }
+        } else {
+            gen_case(&mut r, thorough)
+        };
         let t = run(&c);
         out.emit(&c, &t);
     }
